@@ -40,13 +40,13 @@ Theorem setstate_resets : forall m r st y,
 Proof. exact setstate_resets_l. Qed.
 Print Assumptions setstate_resets.
 
-(** getstate_setstate: explicit flag, else follows slots, unless an own pair is
-    auto-detected. *)
-Theorem gs_decision_table : forall c,
-  gs_decision c =
+(** getstate_setstate: explicit flag; else generated iff the class is slotted or
+    would inherit an attrs-generated pair — unless its body brings its own pair. *)
+Theorem gs_decision_table : forall c inh,
+  gs_decision c inh =
   match s_gs c with
   | Some flag => flag
-  | None => s_slots c && negb (s_autodetect c && s_usergs c)
+  | None => negb (s_autodetect c && s_usergs c) && (s_slots c || (negb (s_usergs c) && inh))
   end.
 Proof. exact gs_decision_table_l. Qed.
 Print Assumptions gs_decision_table.
@@ -54,13 +54,22 @@ Print Assumptions gs_decision_table.
 (** Who satisfies the guard: a class that generates its own pair, over ANY mixture
     of slotted and dict bases … *)
 Theorem wf_leaf_generated : forall c bases o h,
-  gs_decision c = true ->
+  gs_decision c (is_gen (resolve bases)) = true ->
   old_proto o && is_nil (attr_names (c :: bases)) && s_cache c = false ->
   wf (c :: bases) o h = true.
 Proof. exact wf_leaf_generated_l. Qed.
 Print Assumptions wf_leaf_generated.
 
-(** … in particular every all-slotted chain with default arguments, of any length … *)
+(** … in particular (the K4 fix) every class with default arguments below a class
+    whose pair is attrs-generated, dict or slotted … *)
+Theorem wf_regenerates_below_generated : forall c bases o h,
+  s_gs c = None -> s_usergs c = false -> is_gen (resolve bases) = true ->
+  old_proto o && is_nil (attr_names (c :: bases)) && s_cache c = false ->
+  wf (c :: bases) o h = true.
+Proof. exact wf_regenerates_l. Qed.
+Print Assumptions wf_regenerates_below_generated.
+
+(** … every all-slotted chain with default arguments, of any length … *)
 Theorem wf_all_slots : forall c bases o h,
   Forall plain_slots (c :: bases) ->
   old_proto o && is_nil (attr_names (c :: bases)) && s_cache c = false ->
@@ -95,17 +104,27 @@ Theorem K2_copy_carries_cache_refuted :
 Proof. exact K2_refuted_l. Qed.
 Print Assumptions K2_copy_carries_cache_refuted.
 
-Theorem K4_dict_below_slotted_refuted :
+Theorem K4_optout_below_generated_refuted :
   forallb (fun o =>
-     match observe [ex_dict_leaf; ex_slots_base] ex_fv [] o with
+     match observe [ex_dict_leaf_optout; ex_slots_base] ex_fv [] o with
      | Ob TOk [FEq; FMissing] EqAttrErr _ _ => true
      | _ => false
      end) [OCopy; ODeep; OPickle 0; OPickle 2; OPickle 5; OLegacy] = true.
 Proof. exact K4_refuted_l. Qed.
-Print Assumptions K4_dict_below_slotted_refuted.
+Print Assumptions K4_optout_below_generated_refuted.
+
+Theorem K4_default_now_round_trips :
+  forallb (fun o =>
+     wf [ex_dict_leaf; ex_slots_base] o []
+     && post_ok [ex_dict_leaf; ex_slots_base] []
+          (observe [ex_dict_leaf; ex_slots_base] ex_fv [] o))
+    [OCopy; ODeep; OPickle 0; OPickle 2; OPickle 5; OLegacy] = true
+  /\ gs_kinds [ex_dict_leaf; ex_slots_base] = [GGen; GGen].
+Proof. exact K4_fixed_l. Qed.
+Print Assumptions K4_default_now_round_trips.
 
 Theorem K4_cache_uninitialised_refuted :
-  let leaf := C false false true false None false false true [] in
+  let leaf := C false false true false (Some false) false false true [] in
   observe [leaf; ex_slots_base] ex_fv [] ODeep = Ob TOk [FEq] EqTrue HsOk HoAttrErr.
 Proof. exact K4_cache_refuted_l. Qed.
 Print Assumptions K4_cache_uninitialised_refuted.
